@@ -1,5 +1,7 @@
 package sim
 
+import "time"
+
 // C01 — no double spend. Mint-level world, attacker re-presenting used secrets,
 // concurrent episodes sharing secrets, every melt Lightning outcome.
 
@@ -12,6 +14,10 @@ func coreC01(tier string) []RunSpec {
 	n := 12
 	if tier == "thorough" {
 		n = 60
+	}
+	// payments that outlive the expiry of their quote
+	for k := 0; k < 8; k++ {
+		out = append(out, RunSpec{Profile: "core:late-resolution", Params: map[string]int{"late": 1, "k": k}})
 	}
 	// race-heavy scenarios with fixed shape: k-th variation of the tape under forced step kind
 	for _, kind := range []string{"race", "replay", "dup", "stalerelease"} {
@@ -108,6 +114,31 @@ func runC01(rc *RunCtx) {
 		rc.S.Probe("c01_internal_fault_restart_replay")
 		rc.Nontrivial = true
 		return
+	}
+	if rc.P("late", 0) == 1 {
+		// a payment that outlives its quote's expiry: melt stays pending, hours pass, polls and state
+		// checks look at it, the attacker re-presents its inputs, and only then the payment ends
+		for i := 0; i < 2; i++ {
+			m.step = -10 + i
+			rc.W.LN.ForceNextPay = "pending"
+			m.StepMelt()
+		}
+		rc.W.LN.ForceNextPay = ""
+		rc.Op("clock+2h")
+		rc.S.Sleep(2 * time.Hour)
+		for i, k := range []string{"checkstate", "replay", "replay", "swap", "replay", "resolve", "replay", "checkstate"} {
+			m.step = i
+			if k == "replay" && len(m.Pending) > 0 {
+				// quote polls of every melt still pending, as a wallet does before it retries
+				rc.Quietly(func() {
+					for _, pm := range m.Pending {
+						m.User.PollMeltQuote(pm.Mint, pm.Q.ID)
+					}
+				})
+			}
+			m.Step(mwKind(k), false)
+		}
+		rc.S.Probe("c01_late_resolution")
 	}
 	forced, isForced := rc.Spec.Params["force"]
 	// weights:       fund swap melt resolve replay dup race checkstate restore restart clock adv internal rotate
